@@ -354,6 +354,17 @@ func (endp *Endpoint) setupListeners(addresses []config.Endpoint) error {
 }
 
 func (endp *Endpoint) NewSession(conn *smtp.Conn) (smtp.Session, error) {
+	// go-smtp replaces the session on a repeated EHLO/HELO/LHLO without
+	// logging out the previous one. Do it here, otherwise its open delivery
+	// and limit permits are never released.
+	if conn != nil {
+		if prev := conn.Session(); prev != nil {
+			if err := prev.Logout(); err != nil {
+				endp.Log.Error("previous session logout failed", err)
+			}
+		}
+	}
+
 	sess := endp.newSession(conn)
 
 	// Executed before authentication and session initialization.
